@@ -701,7 +701,44 @@ class Cx:
                 return True
             if hi < b:
                 return False
+        cell = self._cmp_cell(op, a, b)
+        if cell is not None:
+            # the comparison is a function of a few source bits: decided as
+            # a truth test on that bit (rules see the path condition, and the
+            # branch can be if-converted)
+            if cell.is_const():
+                return bool(cell.const())
+            t = BV([cell])
+            return self.decide(CondDesc(
+                ('cmp', type(op).__name__, repr(a), b), t))
         return self.decide(('cmp', type(op).__name__, repr(a), b))
+
+    @staticmethod
+    def _cmp_cell(op, a, b):
+        """`a <op> b` (bit vector against a number) as one exact cell over
+        a's source bits, or None (unknown cells, too many source bits)"""
+        from . import symx as SX
+        cells = list(a.cells)
+        if any(c is TOP for c in cells):
+            return None
+        vs = sorted({v for c in cells for v in c.vars}, key=repr)
+        if len(vs) > SX.MAXV:
+            return None
+        fn = {ast.Lt: lambda x: x < b, ast.LtE: lambda x: x <= b,
+              ast.Gt: lambda x: x > b, ast.GtE: lambda x: x >= b,
+              ast.Eq: lambda x: x == b, ast.NotEq: lambda x: x != b}.get(
+                  type(op))
+        if fn is None:
+            return None
+        table = 0
+        for i in range(1 << len(vs)):
+            env = {v: (i >> j) & 1 for j, v in enumerate(vs)}
+            x = 0
+            for k, c in enumerate(cells):
+                x |= SX._eval(c, env) << k
+            if fn(x):
+                table |= 1 << i
+        return SX._simplify(SX.Cell(tuple(vs), table))
 
     def contains(self, coll, x):
         if isinstance(coll, dict):
@@ -833,7 +870,7 @@ class Cx:
             return [self.conv(x) for x in v]
         if isinstance(v, CE.NTValue):
             return v
-        if isinstance(v, tuple) and type(v) is not tuple:
+        if isinstance(v, tuple):
             return tuple(self.conv(x) for x in v)
         if isinstance(v, bytearray):
             return Seq('bytearray', list(v))
@@ -1002,6 +1039,8 @@ class Cx:
             return call_ext(self, fn.name, args, kwargs)
         if isinstance(fn, CE.NTType):
             return fn(*args, **kwargs)
+        if isinstance(fn, CE.ClassRef):
+            return self.call(self.conv(fn), args, kwargs)
         raise CxError('call of {}'.format(type(fn).__name__))
 
     def tick(self):
